@@ -5,8 +5,16 @@ namespace Pcore.Object
 /-- a given_or_derived attribute has no declared value (its implicit one is `undef`) -/
 def AttrGod (a : Attr) : Prop := a.kind = .givenOrDerived → ∀ v, a.value = some v → v = .undef
 
-theorem mkAttr_name {d : AttrDecl} {a : Attr} (h : mkAttr d = .ok a) : a.name = d.name := by
+theorem mkAttr_core {d : AttrDecl} {a : Attr} (h : mkAttr d = .ok a) :
+    mkAttrCore d = .ok a ∧ ¬(d.kind = .constant ∧ d.final = some false) := by
   unfold mkAttr at h
+  split at h
+  · cases h
+  · rename_i hc
+    exact ⟨h, by simpa using hc⟩
+
+theorem mkAttrCore_name {d : AttrDecl} {a : Attr} (h : mkAttrCore d = .ok a) : a.name = d.name := by
+  unfold mkAttrCore at h
   cases hd : d.dflt with
   | some v =>
     simp only [hd] at h
@@ -21,24 +29,31 @@ theorem mkAttr_name {d : AttrDecl} {a : Attr} (h : mkAttr d = .ok a) : a.name = 
     · cases h
     · cases h; rfl
 
-theorem mkAttr_kind_override {d : AttrDecl} {a : Attr} (h : mkAttr d = .ok a) : a.kind = d.kind ∧ a.override = d.override := by
-  unfold mkAttr at h
+theorem mkAttr_name {d : AttrDecl} {a : Attr} (h : mkAttr d = .ok a) : a.name = d.name :=
+  mkAttrCore_name (mkAttr_core h).1
+
+theorem mkAttrCore_fields {d : AttrDecl} {a : Attr} (h : mkAttrCore d = .ok a) :
+    a.kind = d.kind ∧ a.override = d.override ∧ a.final = d.isFinal := by
+  unfold mkAttrCore at h
   cases hd : d.dflt with
   | some v =>
     simp only [hd] at h
     split at h
     · cases h
     · split at h
-      · cases h; exact ⟨rfl, rfl⟩
+      · cases h; exact ⟨rfl, rfl, rfl⟩
       · cases h
   | none =>
     simp only [hd] at h
     split at h
     · cases h
-    · cases h; exact ⟨rfl, rfl⟩
+    · cases h; exact ⟨rfl, rfl, rfl⟩
 
-theorem mkAttr_god {d : AttrDecl} {a : Attr} (h : mkAttr d = .ok a) : AttrGod a := by
-  unfold mkAttr at h
+theorem mkAttr_kind_override {d : AttrDecl} {a : Attr} (h : mkAttr d = .ok a) : a.kind = d.kind ∧ a.override = d.override :=
+  ⟨(mkAttrCore_fields (mkAttr_core h).1).1, (mkAttrCore_fields (mkAttr_core h).1).2.1⟩
+
+theorem mkAttrCore_god {d : AttrDecl} {a : Attr} (h : mkAttrCore d = .ok a) : AttrGod a := by
+  unfold mkAttrCore at h
   cases hd : d.dflt with
   | some v =>
     simp only [hd] at h
@@ -61,6 +76,8 @@ theorem mkAttr_god {d : AttrDecl} {a : Attr} (h : mkAttr d = .ok a) : AttrGod a 
       split at hv
       · cases hv; rfl
       · cases hv
+
+theorem mkAttr_god {d : AttrDecl} {a : Attr} (h : mkAttr d = .ok a) : AttrGod a := mkAttrCore_god (mkAttr_core h).1
 
 /-! ### findAttr / eachAttribute -/
 
@@ -182,27 +199,53 @@ structure TypeOK (t : OType) : Prop where
 theorem typeOK_nil : TypeOK [] := ⟨by simp [eachAttribute], by simp [eachAttribute]⟩
 
 theorem define_ok {env : List OType} {d : Def} {t : OType} (h : define env d = .ok t) :
-    ∃ attrs, defineAttrs (parentOf env d) d.attrs = .ok attrs ∧
-      checkSerialization attrs (parentOf env d) false (d.serialization.getD []) = .ok () ∧
+    d.constants.any (fun c => d.attrs.any (fun a => a.name == c.1)) = false ∧
+    ∃ attrs, defineAttrs (parentOf env d) (d.decls (parentOf env d)) = .ok attrs ∧
+      checkSerialization attrs (parentOf env d) false [] (d.serialization.getD []) = .ok () ∧
       t = { id := env.length, attrs := attrs, equality := d.equality.toList?,
             includeType := d.includeType.getD true, serialization := d.serialization } :: parentOf env d := by
   unfold define at h
   generalize parentOf env d = parent at h ⊢
   simp only at h
-  cases ha : defineAttrs parent d.attrs with
-  | error c => simp [ha] at h
-  | ok attrs =>
-    simp only [ha] at h
-    cases he : checkEquality attrs parent (d.equality.toList?.getD []) with
-    | error c => simp [he] at h
-    | ok u =>
-      simp only [he] at h
-      cases hs : checkSerialization attrs parent false (d.serialization.getD []) with
-      | error c => simp [hs] at h
-      | ok u' =>
-        simp only [hs] at h
-        cases h
-        exact ⟨attrs, rfl, hs, rfl⟩
+  split at h
+  · cases h
+  · rename_i hboth
+    refine ⟨by simpa using hboth, ?_⟩
+    cases ha : defineAttrs parent (d.decls parent) with
+    | error c => simp [ha] at h
+    | ok attrs =>
+      simp only [ha] at h
+      cases he : checkEquality attrs parent (d.equality.toList?.getD []) with
+      | error c => simp [he] at h
+      | ok u =>
+        simp only [he] at h
+        cases hs : checkSerialization attrs parent false [] (d.serialization.getD []) with
+        | error c => simp [hs] at h
+        | ok u' =>
+          simp only [hs] at h
+          cases h
+          exact ⟨attrs, rfl, hs, rfl⟩
+
+/-- the names of the attribute specifications are distinct: `attributes` and `constants` are hash literals (distinct keys
+    each) and a name in both is refused (BOTH_CONSTANT_AND_ATTRIBUTE) -/
+theorem decls_nodup {d : Def} {parent : OType} (ha : (d.attrs.map (·.name)).Nodup)
+    (hc : (d.constants.map (·.1)).Nodup)
+    (hboth : d.constants.any (fun c => d.attrs.any (fun a => a.name == c.1)) = false) :
+    ((d.decls parent).map (·.name)).Nodup := by
+  unfold Def.decls
+  rw [List.map_append, List.map_map, List.nodup_append]
+  have hnames : ((fun x => x.name) ∘ constDecl parent) = fun c => c.1 := by funext c; rfl
+  rw [hnames]
+  refine ⟨ha, hc, ?_⟩
+  intro x hx y hy hxy
+  simp only [List.mem_map] at hx hy
+  obtain ⟨a, ha', rfl⟩ := hx
+  obtain ⟨c, hc', rfl⟩ := hy
+  have h1 := (List.any_eq_false.mp hboth) c hc'
+  have h2 : d.attrs.any (fun a => a.name == c.1) = false := by simpa using h1
+  have h3 := (List.any_eq_false.mp h2) a ha'
+  simp at h3
+  exact h3 hxy
 
 theorem typeOK_cons {l : Level} {p : OType} (hp : TypeOK p) (hnd : (l.attrs.map (·.name)).Nodup)
     (hg : ∀ a ∈ l.attrs, AttrGod a) : TypeOK (l :: p) := by
@@ -247,12 +290,12 @@ theorem tailOpt_of_split {l : List Attr} (h : Split l) : TailOpt l ((l.filter (f
   rw [List.getElem?_append_right hge] at hi
   exact ho a (List.mem_of_getElem? hi)
 
-theorem checkSerialization_split {own : List Attr} {parent : OType} {b : Bool} {ser : List String}
-    (h : checkSerialization own parent b ser = .ok ()) :
+theorem checkSerialization_split {own : List Attr} {parent : OType} {b : Bool} {seen ser : List String}
+    (h : checkSerialization own parent b seen ser = .ok ()) :
     (b = true → ∀ a ∈ ser.filterMap (lookupMember own parent), a.optional = true) ∧
-      Split (ser.filterMap (lookupMember own parent)) := by
-  induction ser generalizing b with
-  | nil => exact ⟨by simp, [], [], by simp, by simp, by simp⟩
+      Split (ser.filterMap (lookupMember own parent)) ∧ ser.Nodup ∧ ∀ n ∈ ser, n ∉ seen := by
+  induction ser generalizing b seen with
+  | nil => exact ⟨by simp, ⟨[], [], by simp, by simp, by simp⟩, by simp, by simp⟩
   | cons n ns ih =>
     unfold checkSerialization at h
     cases hl : lookupMember own parent n with
@@ -261,29 +304,45 @@ theorem checkSerialization_split {own : List Attr} {parent : OType} {b : Bool} {
       simp only [hl] at h
       split at h
       · cases h
-      · by_cases hopt : a.optional = true
-        · simp only [hopt, if_true] at h
-          obtain ⟨hall, _⟩ := ih h
-          have hall' := hall rfl
-          have hmem : ∀ x ∈ (n :: ns).filterMap (lookupMember own parent), x.optional = true := by
-            intro x hx
-            simp only [List.filterMap_cons, hl, List.mem_cons] at hx
-            rcases hx with hx | hx
-            · subst hx; exact hopt
-            · exact hall' x hx
-          exact ⟨fun _ => hmem, [], _, by simp, by simp, hmem⟩
-        · simp only [hopt, Bool.false_eq_true, if_false] at h
+      · split at h
+        · cases h
+        · rename_i hrao
           split at h
           · cases h
-          · rename_i hb
-            obtain ⟨_, rq, op, heq, hr, ho⟩ := ih h
-            refine ⟨fun hb' => absurd hb' hb, a :: rq, op, ?_, ?_, ho⟩
-            · simp only [List.filterMap_cons, hl, heq, List.cons_append]
-            · intro x hx
-              simp only [List.mem_cons] at hx
-              rcases hx with hx | hx
-              · subst hx; simpa using hopt
-              · exact hr x hx
+          · rename_i hseen
+            obtain ⟨hall, hsplit, hnd, hdisj⟩ := ih h
+            have hn_ns : n ∉ ns := fun hmem => hdisj n hmem (by simp)
+            have hnotseen : n ∉ seen := by simpa using hseen
+            have hnd' : (n :: ns).Nodup := List.nodup_cons.mpr ⟨hn_ns, hnd⟩
+            have hdisj' : ∀ m ∈ n :: ns, m ∉ seen := by
+              intro m hm
+              simp only [List.mem_cons] at hm
+              rcases hm with rfl | hm
+              · exact hnotseen
+              · intro hms; exact hdisj m hm (by simp [hms])
+            by_cases hopt : a.optional = true
+            · have hall' := hall (by simp [hopt])
+              have hmem : ∀ x ∈ (n :: ns).filterMap (lookupMember own parent), x.optional = true := by
+                intro x hx
+                simp only [List.filterMap_cons, hl, List.mem_cons] at hx
+                rcases hx with hx | hx
+                · subst hx; exact hopt
+                · exact hall' x hx
+              exact ⟨fun _ => hmem, ⟨[], _, by simp, by simp, hmem⟩, hnd', hdisj'⟩
+            · have hb : b = false := by
+                cases b with
+                | false => rfl
+                | true => simp [hopt] at hrao
+              obtain ⟨rq, op, heq, hr, ho⟩ := hsplit
+              have hbt : b = true → ∀ x ∈ (n :: ns).filterMap (lookupMember own parent), x.optional = true := by
+                intro hb'; rw [hb] at hb'; cases hb'
+              refine ⟨hbt, ⟨a :: rq, op, ?_, ?_, ho⟩, hnd', hdisj'⟩
+              · simp only [List.filterMap_cons, hl, heq, List.cons_append]
+              · intro x hx
+                simp only [List.mem_cons] at hx
+                rcases hx with hx | hx
+                · subst hx; simpa using hopt
+                · exact hr x hx
 
 theorem nodup_map_inj {l : List Attr} (h : (l.map (·.name)).Nodup) {a b : Attr} (ha : a ∈ l) (hb : b ∈ l)
     (hab : a.name = b.name) : a = b := by
@@ -355,13 +414,14 @@ theorem wf_noSerialization {l : Level} {p : OType} (hok : TypeOK (l :: p)) (hs :
   · intro a ha
     exact hok.god a (posAttrs_mem_each ha)
 
-/-- a type with a `serialization` list that passed `checkSerialization` and does not repeat a name -/
+/-- a type with a `serialization` list that passed `checkSerialization` (which also refuses a repeated name) -/
 theorem wf_serialization {l : Level} {p : OType} {ser : List String} (hok : TypeOK (l :: p))
-    (hs : l.serialization = some ser) (hnd : ser.Nodup)
-    (hc : checkSerialization l.attrs p false ser = .ok ()) : WF (l :: p) := by
+    (hs : l.serialization = some ser)
+    (hc : checkSerialization l.attrs p false [] ser = .ok ()) : WF (l :: p) := by
   have hpos : posAttrs (l :: p) = ser.filterMap (lookupMember l.attrs p) := by
     simp only [posAttrs, hs]
     congr 1
+  obtain ⟨_, hsplit, hnd, _⟩ := checkSerialization_split hc
   refine ⟨?_, ?_, ?_⟩
   · rw [hpos]
     have := names_filterMap_lookup l.attrs p ser
@@ -370,16 +430,16 @@ theorem wf_serialization {l : Level} {p : OType} {ser : List String} (hok : Type
   · unfold requiredCount
     apply tailOpt_of_split
     rw [hpos]
-    exact (checkSerialization_split hc).2
+    exact hsplit
   · intro a ha
     exact hok.god a (posAttrs_mem_each ha)
 
 /-- every definition accepted by `define` over an environment of accepted definitions satisfies the layout invariant
-    (own attribute names distinct and no repeated name in `serialization`: what the universe of the driver guarantees) -/
+    (own attribute names distinct: a hash literal — what the universe of the driver guarantees) -/
 theorem define_wf {env : List OType} {d : Def} {t : OType} (henv : ∀ t' ∈ env, TypeOK t')
-    (hnd : (d.attrs.map (·.name)).Nodup) (hser : ∀ ser, d.serialization = some ser → ser.Nodup)
-    (h : define env d = .ok t) : TypeOK t ∧ WF t := by
-  obtain ⟨attrs, hattrs, hcs, ht⟩ := define_ok h
+    (hnd : (d.attrs.map (·.name)).Nodup) (hcn : (d.constants.map (·.1)).Nodup) (h : define env d = .ok t) :
+    TypeOK t ∧ WF t := by
+  obtain ⟨hboth, attrs, hattrs, hcs, ht⟩ := define_ok h
   have hparent : TypeOK (parentOf env d) := by
     unfold parentOf
     cases hp : d.parent with
@@ -393,23 +453,27 @@ theorem define_wf {env : List OType} {d : Def} {t : OType} (henv : ∀ t' ∈ en
   subst ht
   have hok := typeOK_cons
     (l := ⟨env.length, attrs, d.equality.toList?, d.includeType.getD true, d.serialization⟩)
-    hparent (by simpa [h1] using hnd) h2
+    hparent (by rw [h1]; exact decls_nodup hnd hcn hboth) h2
   refine ⟨hok, ?_⟩
   rcases Option.eq_none_or_eq_some d.serialization with hs | ⟨ser, hs⟩
   · exact wf_noSerialization hok hs
-  · exact wf_serialization hok hs (hser ser hs) (by simpa [hs] using hcs)
+  · exact wf_serialization hok hs (by simpa [hs] using hcs)
 
 /-! ### accepted definitions: `define` succeeds on every well-formed definition -/
 
 /-- a declared attribute that is well-formed on its own (attribute.initialize raises nothing) -/
 def AttrDeclOK (d : AttrDecl) : Prop :=
+  ¬(d.kind = .constant ∧ d.final = some false) ∧
   match d.dflt with
   | some v => d.kind ≠ .derived ∧ d.kind ≠ .givenOrDerived ∧ inst d.ty v = true
   | none => d.kind ≠ .constant
 
 theorem mkAttr_succeeds {d : AttrDecl} (h : AttrDeclOK d) : ∃ a, mkAttr d = .ok a := by
-  unfold AttrDeclOK at h
+  obtain ⟨hfin, h⟩ := h
+  have hc : (d.kind == Kind.constant && d.final == some false) = false := by simpa using hfin
   unfold mkAttr
+  simp only [hc, Bool.false_eq_true, if_false]
+  unfold mkAttrCore
   cases hd : d.dflt with
   | some v =>
     simp only [hd] at h ⊢
@@ -419,12 +483,13 @@ theorem mkAttr_succeeds {d : AttrDecl} (h : AttrDeclOK d) : ∃ a, mkAttr d = .o
     simp only [hd] at h ⊢
     simp [h]
 
-/-- the declared attribute may stand where it stands: a fresh name without `override`, or a proper override (a constant
-    — final — is overridden by a constant only; the type may only narrow) -/
+/-- the declared attribute may stand where it stands: a fresh name without `override`, or a proper override (a final
+    member — every constant is final — is overridden only constant by constant; the type may only narrow) -/
 def OverrideOK (parent : OType) (d : AttrDecl) : Prop :=
   match findAttr parent d.name with
   | none => d.override = false
-  | some pa => d.override = true ∧ (pa.kind = .constant → d.kind = .constant) ∧ ∀ a, mkAttr d = .ok a → asg pa.ty a.ty = true
+  | some pa => d.override = true ∧ (pa.final = true → pa.kind = .constant ∧ d.kind = .constant) ∧
+      ∀ a, mkAttr d = .ok a → asg pa.ty a.ty = true
 
 theorem assertOverride_succeeds {parent : OType} {d : AttrDecl} {a : Attr} (h : OverrideOK parent d)
     (ha : mkAttr d = .ok a) : assertOverride parent a = .ok () := by
@@ -439,11 +504,12 @@ theorem assertOverride_succeeds {parent : OType} {d : AttrDecl} {a : Attr} (h : 
   | some pa =>
     simp only [hf] at h
     obtain ⟨h1, h2, h3⟩ := h
-    have hfin : (pa.kind == Kind.constant && a.kind != Kind.constant) = false := by
-      by_cases hc : pa.kind = .constant
-      · simp [hk, h2 hc]
+    have hfin : (pa.final && !(pa.kind == Kind.constant && a.kind == Kind.constant)) = false := by
+      by_cases hc : pa.final = true
+      · obtain ⟨hp, hdk⟩ := h2 hc
+        simp [hk, hp, hdk]
       · simp [hc]
-    simp [hfin, ho, h1, h3 a ha]
+    simp only [hfin, ho, h1, h3 a ha, Bool.false_eq_true, if_false, Bool.not_true]
 
 theorem defineAttrs_succeeds {parent : OType} {ds : List AttrDecl} (hok : ∀ d ∈ ds, AttrDeclOK d)
     (hov : ∀ d ∈ ds, OverrideOK parent d) : ∃ as, defineAttrs parent ds = .ok as := by
@@ -472,33 +538,41 @@ def SerSorted (own : List Attr) (parent : OType) (ser : List String) : Prop :=
   ser.Pairwise (fun n m => ∀ a b, lookupMember own parent n = some a → lookupMember own parent m = some b →
     a.optional = true → b.optional = true)
 
-theorem checkSerialization_succeeds {own : List Attr} {parent : OType} {b : Bool} {ser : List String}
+theorem checkSerialization_succeeds {own : List Attr} {parent : OType} {b : Bool} {seen ser : List String}
     (hmem : ∀ n ∈ ser, ∃ a, lookupMember own parent n = some a ∧ a.settable = true)
     (hb : b = true → ∀ n ∈ ser, ∀ a, lookupMember own parent n = some a → a.optional = true)
-    (hs : SerSorted own parent ser) : checkSerialization own parent b ser = .ok () := by
-  induction ser generalizing b with
+    (hs : SerSorted own parent ser) (hnd : ser.Nodup) (hdisj : ∀ n ∈ ser, n ∉ seen) :
+    checkSerialization own parent b seen ser = .ok () := by
+  induction ser generalizing b seen with
   | nil => rfl
   | cons n ns ih =>
     obtain ⟨a, hl, hset⟩ := hmem n (by simp)
     unfold SerSorted at hs
     rw [List.pairwise_cons] at hs
+    rw [List.nodup_cons] at hnd
     unfold checkSerialization
     simp only [hl]
     have hkind : (a.kind == Kind.constant || a.kind == Kind.derived) = false := by
       unfold Attr.settable at hset
       simpa using hset
-    simp only [hkind, Bool.false_eq_true, if_false]
-    by_cases hopt : a.optional = true
-    · simp only [hopt, if_true]
-      exact ih (fun m hm => hmem m (by simp [hm]))
-        (fun _ m hm c hc => hs.1 m hm a c hl hc hopt) hs.2
-    · simp only [hopt, Bool.false_eq_true, if_false]
-      have hbf : b = false := by
-        cases b with
-        | false => rfl
+    have hrao : (!a.optional && b) = false := by
+      by_cases hopt : a.optional = true
+      · simp [hopt]
+      · cases b with
+        | false => simp
         | true => exact absurd (hb rfl n (by simp) a hl) hopt
-      subst hbf
-      simp only [Bool.false_eq_true, if_false]
-      exact ih (fun m hm => hmem m (by simp [hm])) (fun h => by cases h) hs.2
+    have hseen : seen.contains n = false := by simpa using hdisj n (by simp)
+    simp only [hkind, hrao, hseen, Bool.false_eq_true, if_false]
+    apply ih (fun m hm => hmem m (by simp [hm])) _ hs.2 hnd.2
+    · intro m hm hms
+      simp only [List.mem_cons] at hms
+      rcases hms with rfl | hms
+      · exact hnd.1 hm
+      · exact hdisj m (by simp [hm]) hms
+    · intro hb' m hm c hc
+      simp only [Bool.or_eq_true] at hb'
+      rcases hb' with hb' | hb'
+      · exact hb hb' m (by simp [hm]) c hc
+      · exact hs.1 m hm a c hl hc hb'
 
 end Pcore.Object
